@@ -108,6 +108,8 @@ def rule_membership(db, chk, cfg, rule="MEMBER"):
                         fwd_ok = False
                         why = "cursor '%s' also moves backwards (%s)" % (kind[1], sorted(mv))
                 chk.instance(rule, {"function": f.qual, "append": canon(a)[:60], "source": kind, "in_loop": id(a) in in_loop, "cfg": cfg}, ok=ok and fwd_ok)
+                if ok and id(a) in in_loop and kind[0] in ("index", "iter"):
+                    chk.instance("FORWARD", {"function": f.qual, "cursor": kind[1], "moves": sorted(moves.get(kind[1], set())), "cfg": cfg}, ok=fwd_ok)
                 if not ok:
                     chk.violation(rule, f.qual, canon(a)[:50], "the result receives %s, which is not an element of the input path: the output would "
                                   "no longer be a subsequence of the input vertices" % canon(args[0] if args else a)[:50], where(a), cfg=cfg)
@@ -345,4 +347,106 @@ def rule_eps_threshold(db, chk, cfg, rule="EPS.threshold"):
                                   "comparisons in the function draw it there" % (canon(x), op), where(x), cfg=cfg)
     if n < 4:
         raise AnalysisBroken("EPS.threshold: only %d distance/epsilon comparisons found in SimplifyPath and RDP" % n)
+    return n
+
+
+def rule_simplify_neighbours(db, chk, cfg, rule="NEIGHBOURS.fresh"):
+    """SimplifyPath keeps, for every surviving vertex, the squared distance from the line through its two surviving neighbours.  After
+    a vertex has been removed, the two vertices next to the gap get their distance recomputed - from *their* current neighbours.  One
+    iteration of the main loop is interpreted on a generic ring of surviving vertices (labels ..,-3,-2,-1,0,1,2,3,.. with GetPrior /
+    GetNext answering on that ring minus the removed vertex) for both outcomes of the 'which of the two is smaller' test; every
+    `distSqr[V] = PerpendicDistFromLineSqrd(path[V], path[A], path[B])` must have {A, B} = {surviving prior of V, surviving next of V}."""
+    from ..astq import if_parts
+    from ..evalx import Interp, Unsupported
+    n = 0
+    for f in db.find("SimplifyPath"):
+        if "Paths<" in f.sig.split("(")[0] or "vector<vector" in dqt(f.params[0]):
+            continue
+        loops = [x for x in kids(f.body) if x.get("kind") in ("ForStmt", "WhileStmt", "DoStmt") and "(flags[" in canon(x) and " = true)" in canon(x)]
+        if len(loops) != 1:
+            raise AnalysisBroken("main loop of SimplifyPath not found uniquely (%d)" % len(loops))
+        body = [x for x in kids(kids(loops[0])[-1]) if isinstance(x, dict) and x.get("kind")]
+        # start after the statement that computes `next` (the scan for a removable vertex before it is a search, not part of the update)
+        start = None
+        for i, st in enumerate(body):
+            if re.match(r"^\(next = GetNext\(curr, ", canon(st)):
+                start = i + 1
+        if start is None:
+            raise AnalysisBroken("SimplifyPath: `next = GetNext(curr, ...)` not found in the main loop")
+        for smaller_next in (False, True):
+            removed = set()
+
+            def live(p, step):
+                q = p + step
+                while q in removed:
+                    q += step
+                return q
+
+            def hook(name, argv, nd):
+                if name == "GetNext":
+                    return live(it.ev(db.call_args(nd)[0]), 1)
+                if name == "GetPrior":
+                    return live(it.ev(db.call_args(nd)[0]), -1)
+                return NotImplemented
+            it = Interp(db, {"prior": -1, "curr": 0, "next": 1, "prior2": None, "high": 1000, "isClosedPath": True, "start": 0}, call_hook=hook)
+            writes = []
+
+            def run(stmts):
+                for st in stmts:
+                    c = canon(st)
+                    k = st.get("kind")
+                    if k == "CompoundStmt":
+                        run(kids(st))
+                        continue
+                    if k == "IfStmt":
+                        cond, then, els = if_parts(st)
+                        cc = canon(cond)
+                        if "distSqr[" in cc and "epsSqr" not in cc:
+                            # the comparison of the two candidate distances: both outcomes are explored by the caller
+                            br = then if smaller_next else els
+                            if br is not None:
+                                run([br])
+                            continue
+                        if "next == prior" in cc or "prior == next" in cc:
+                            continue          # ring of two: not the generic case
+                        try:
+                            t = it._truth(it.ev(cond), st)
+                        except Unsupported:
+                            t = True
+                        br = then if t else els
+                        if br is not None:
+                            run([br])
+                        continue
+                    m = re.match(r"^\(flags\[(\w+)\] = true\)$", c)
+                    if m:
+                        removed.add(it.env[m.group(1)])
+                        continue
+                    m = re.match(r"^\(distSqr\[(\w+)\] = PerpendicDistFromLineSqrd\(path\[(\w+)\], path\[(\w+)\], path\[(\w+)\]\)\)$", c.replace("Point<long>{", "").replace("Point<double>{", "").replace("}", ""))
+                    if m:
+                        v, a0, a1, a2 = [it.env[x] for x in m.groups()]
+                        writes.append((st, v, a0, a1, a2))
+                        continue
+                    if k in ("BreakStmt", "ContinueStmt"):
+                        continue
+                    try:
+                        it.exec(st)
+                    except Unsupported as e:
+                        raise AnalysisBroken("cannot interpret SimplifyPath's update step `%s`: %s" % (c[:60], e))
+            run(body[start:])
+            if len(removed) != 1 or len(writes) < 2:
+                raise AnalysisBroken("SimplifyPath: one iteration removes %d vertices and recomputes %d distances (expected 1 and 2)" % (len(removed), len(writes)))
+            for st, v, a0, a1, a2 in writes:
+                want = {live(v, -1), live(v, 1)}
+                ok = a0 == v and {a1, a2} == want and v not in removed
+                n += 1
+                chk.instance(rule, {"function": f.qual, "sig": f.sig[:50], "smaller_is_next": smaller_next, "removed": sorted(removed), "vertex": v, "line_through": [a1, a2],
+                                    "surviving_neighbours": sorted(want), "cfg": cfg}, ok=ok)
+                if not ok:
+                    chk.violation(rule, f.qual.split("<")[0], "%s|%s" % ("next-smaller" if smaller_next else "curr-smaller", canon(st)[9:20]),
+                                  "after removing vertex %s (ring labels relative to the candidate, %s branch) `%s` recomputes the distance of vertex %s from the "
+                                  "line through %s; its surviving neighbours are %s - a stale distance lets a removable vertex survive (or removes one that is not)"
+                                  % (sorted(removed), "next-is-smaller" if smaller_next else "curr-is-smaller", canon(st)[:70], v, sorted([a1, a2]), sorted(want)),
+                                  where(st), cfg=cfg)
+    if n < 8:
+        raise AnalysisBroken("NEIGHBOURS.fresh: only %d distance recomputations examined" % n)
     return n
